@@ -215,6 +215,9 @@ PROFILES = [
     # both sign-known non-positive: sign-known abs shortcuts and operand pruning on the negative side
     ('negative', D('Real', -3, 0), D('Real', -4, -1), []),
     ('neg-int', D('Int', -4, -1), D('Real', -2, 0), []),
+    # degenerate ranges: a variable fixed by its declaration, an integer range with a single point
+    ('fixed', D('Real', 2, 2), D('Int', -1, -1), []),
+    ('fixed0', D('NNReal', 0, 0), D('Real', -0.5, 0.5), []),
 ]
 
 
@@ -252,7 +255,9 @@ def m1_family(level):
                 pname, dx, dy, extra = PROFILES[(i + r * 3) % len(PROFILES)]
                 k = ks[(i // 3 + ci + r) % len(ks)]
                 doms = {'x': dx, 'y': dy, 'p': D('Boolean'), 'q': D('Boolean')}
-                cons = [row(e, cmp_, num(k))] + extra
+                # every fifth model compares with a variable instead of a constant
+                rhs_e = var('y') if (i + r) % 5 == 4 else num(k)
+                cons = [row(e, cmp_, rhs_e)] + extra
                 out.append({'fam': 'M1c', 'profile': pname, 'model': mk_model('min', ['+', var('x'), var('y')] if 'x' in str(e) or True else var('x'), cons, doms)})
             i += 1
     # logic trees as bare assertions and under comparisons with 0/1
@@ -510,3 +515,28 @@ def l_seeded(seed, n, cont_only=False, maxn=3, maxm=3, coefs=None, rhss=None, na
             spec['domain_order'] = order
         out.append(spec)
     return out
+
+
+def rename_vars(m, mapping):
+    """the same model with other variable names (compound-looking x_1, leading underscore _t, digits y2)"""
+    import copy
+
+    def w(e):
+        t = e[0]
+        if t == 'var':
+            return ['var', mapping.get(e[1], e[1])]
+        if t == 'num':
+            return e
+        if t in ('min', 'max', 'and', 'or', 'avg'):
+            return [t, [w(x) for x in e[1]]]
+        return [t] + [w(x) for x in e[1:]]
+    m2 = {'vars': [[mapping.get(v[0], v[0])] + list(v[1:]) for v in m['vars']], 'obj': {'dir': m['obj']['dir'], 'e': w(m['obj']['e'])}, 'cons': []}
+    for c in m['cons']:
+        c2 = {'assert': w(c['assert'])} if 'assert' in c else {'l': w(c['l']), 'c': c['c'], 'r': w(c['r'])}
+        if c.get('name'):
+            c2['name'] = c['name']
+        m2['cons'].append(c2)
+    return m2
+
+
+NAME_STYLES = [{}, {'x': 'x_1', 'y': 'y2', 'z': '_t', 'p': 'p_0', 'q': 'flag'}, {'x': 'cost', 'y': 'x_2', 'z': 'z_a', 'p': '__b', 'q': 'q1'}]
